@@ -1,6 +1,6 @@
 (* C10 - ds.List behaves exactly like a reference doubly-linked list (container/list). Statements only. *)
 From Coq Require Import ZArith List Bool.
-From Verif.C10_List Require Import Model Ring Proofs Proofs2 Proofs3.
+From Verif.C10_List Require Import Model Ring Proofs Proofs2 Proofs3 ModelBadArg ProofsBadArg.
 Import ListNotations.
 Close Scope Z_scope.
 
@@ -175,6 +175,28 @@ Example C10_lock_model_sensitive_panic :
   crun_ts lk0 init_state [Call (PushBack 0 1%Z); Iter 0 false false [CPanic]] = TDone None lk0.
 Proof. exact panic_path_ok. Qed.
 
+(* Round 5 - PANICKING ARGUMENTS (ModelBadArg.v): a method of list l called with a nil handle, a ListElement / List
+   implementation of the caller, a nil list or a nil callback panics inside the inner method, before the ring is touched
+   ([XBad l w], w = under the write lock). The wrapper gives the lock back on this exit path too ... *)
+Theorem C10_ts_releases_bad_arg : forall k st x r k1, xstep_ts k st x = TDone r k1 -> k1 = k.
+Proof. exact xstep_ts_releases. Qed.
+
+(* ... so a caller that recovers from such panics and goes on (as it may with container/list) is never blocked and sees
+   exactly the lock-free flavour's results, all locks free at the end - for all histories (callbacks ts_safe) ... *)
+Theorem C10_ts_equals_plain_bad_arg : forall h st,
+  forallb xsafe h = true -> xrun_ts lk0 st h = TDone (xrun st h) lk0.
+Proof. exact xrun_ts_equals_plain. Qed.
+
+(* ... and the model sees the difference: [1]; Remove(nil), recovered; PushBack(2) gives [1 2] with the deferred unlock
+   and blocks for a wrapper that unlocks after the inner call only. *)
+Example C10_lock_model_sensitive_bad_arg :
+  forallb xsafe bad_remove_then_push = true /\
+  option_map (fun r => (values (fst r) 0, snd r)) (xrun init_state bad_remove_then_push)
+    = Some ([1; 2]%Z, [Some (COut (OHandle (Some (El 0)))); None; Some (COut (OHandle (Some (El 1))))]) /\
+  xrun_ts lk0 init_state bad_remove_then_push = TDone (xrun init_state bad_remove_then_push) lk0 /\
+  xrun_ts_gen (rp true true false) lk0 init_state bad_remove_then_push = TBlocked.
+Proof. exact bad_remove_then_push_ok. Qed.
+
 (* the twelve calls in the older formulation without explicit lock state *)
 Theorem C10_ts_calls_equal_plain : forall st o, step_ts st o = Done (step st o).
 Proof. exact ts_equals_plain. Qed.
@@ -197,6 +219,8 @@ Print Assumptions C10_foreign_noop.
 Print Assumptions C10_move.
 Print Assumptions C10_refuted_move_pinned.
 Print Assumptions C10_ts_releases.
+Print Assumptions C10_ts_releases_bad_arg.
+Print Assumptions C10_ts_equals_plain_bad_arg.
 Print Assumptions C10_ts_equals_plain.
 Print Assumptions C10_ts_step_equals_plain.
 Print Assumptions C10_ts_reentrant_write_blocks.
